@@ -109,13 +109,19 @@ func sanitize(s string) string {
 
 // fresh creates the next nondeterministic input.
 func (i *interpreter) fresh(name string, s Sort, t types.Type) value {
+	return i.freshX(name, s, t, false)
+}
+
+// freshX: internal=true marks inputs that exist only under the engine (e.g. math/rand
+// values): they are not part of the native replay vector.
+func (i *interpreter) freshX(name string, s Sort, t types.Type, internal bool) value {
 	k := len(i.nondets)
 	if vec := i.cfg.ConcreteVec; vec != nil {
 		var v uint64
 		if k < len(vec) {
 			v = vec[k]
 		}
-		i.nondets = append(i.nondets, nondetRec{Name: name, Conc: v, Kind: "conc"})
+		i.nondets = append(i.nondets, nondetRec{Name: name, Conc: v, Kind: "conc", Internal: internal})
 		if s.K == KBool {
 			return v&1 == 1
 		}
@@ -123,7 +129,7 @@ func (i *interpreter) fresh(name string, s Sort, t types.Type) value {
 	}
 	vn := fmt.Sprintf("n%d_%s", k, sanitize(name))
 	term := i.ts.Var(vn, s)
-	i.nondets = append(i.nondets, nondetRec{Name: name, Term: term, Kind: "var"})
+	i.nondets = append(i.nondets, nondetRec{Name: name, Term: term, Kind: "var", Internal: internal})
 	return term
 }
 
@@ -305,24 +311,73 @@ func (i *interpreter) recordViolationInScope(label, msg string) {
 	}
 	v := Violation{Label: label, Msg: msg, Decisions: append([]int(nil), i.decisions...), Confirmed: true}
 	for _, nd := range i.nondets {
-		v.Names = append(v.Names, nd.Name)
+		var val uint64
 		if nd.Term != nil {
-			x := m[nd.Term.Name]
-			if x == nil {
-				v.Vector = append(v.Vector, 0)
-			} else {
-				v.Vector = append(v.Vector, x.Uint64())
+			if x := m[nd.Term.Name]; x != nil {
+				val = x.Uint64()
 			}
 		} else {
-			v.Vector = append(v.Vector, nd.Conc)
-			if nd.Kind == "maporder" {
-				v.Internal = true
-			}
+			val = nd.Conc
 		}
+		if nd.Internal {
+			v.InternalVals = append(v.InternalVals, fmt.Sprintf("%s=%d", nd.Name, val))
+			continue
+		}
+		v.Names = append(v.Names, nd.Name)
+		v.Vector = append(v.Vector, val)
 	}
+	v.Internal = i.internalChoices > 0
 	ex.mu.Lock()
 	ex.rep.Violations = append(ex.rep.Violations, v)
 	ex.mu.Unlock()
 }
 
 func nil2memo() map[int]*big.Int { return map[int]*big.Int{} }
+
+// ---------------------------------------------------------------- math/rand: nondeterministic
+
+func init() {
+	randVal := func(fr *frame, name string, w int, t types.Type, nonneg bool) value {
+		i := fr.i
+		budget := i.cfg.Params["rand_budget"]
+		used, _ := i.extra["rand_used"].(int)
+		if used >= budget {
+			// a value that ends "while rand()&mask < threshold" style loops
+			switch w {
+			case 32:
+				return i.norm(i.ts.BVConst(0x7fffffff, 32), t)
+			}
+			return i.norm(i.ts.BVConst(0x7fffffffffffffff, 64), t)
+		}
+		i.extra["rand_used"] = used + 1
+		v := i.freshX(name, BV(w), t, true)
+		if term, ok := v.(*Term); ok && nonneg {
+			// non-negative: clear the sign bit
+			return i.norm(i.ts.BvBin(OBvAnd, term, i.ts.BVConst(mask(w-1), w)), t)
+		}
+		return v
+	}
+	for _, recv := range []string{"math/rand.", "(*math/rand.Rand)."} {
+		off := 0
+		if recv != "math/rand." {
+			off = 1
+		}
+		_ = off
+		externals[recv+"Int"] = func(fr *frame, a []value) value {
+			return randVal(fr, "rand.Int", 64, types.Typ[types.Int], true)
+		}
+		externals[recv+"Int63"] = func(fr *frame, a []value) value {
+			return randVal(fr, "rand.Int63", 64, types.Typ[types.Int64], true)
+		}
+		externals[recv+"Int31"] = func(fr *frame, a []value) value {
+			return randVal(fr, "rand.Int31", 32, types.Typ[types.Int32], true)
+		}
+		externals[recv+"Uint32"] = func(fr *frame, a []value) value {
+			return randVal(fr, "rand.Uint32", 32, types.Typ[types.Uint32], false)
+		}
+		externals[recv+"Uint64"] = func(fr *frame, a []value) value {
+			return randVal(fr, "rand.Uint64", 64, types.Typ[types.Uint64], false)
+		}
+		externals[recv+"Seed"] = func(fr *frame, a []value) value { return nil }
+	}
+}
